@@ -107,7 +107,7 @@ PROPS["C16"] = {
 }
 PROPS["C19"] = {
     "modules": ["CC.Props.C19", "CC.Props.C19Conc"], "campaigns": [hist("C19", BOTH)], "quick_configs": ONE, "tables": {"locks": "required"},
-    "level_text": "PARTIAL. The lock-acquisition structure of every public function of api.rs and of EncryptedHeader::{generate,decrypt} is re-extracted from the source on every run; Lean theorems: the table is well nested (no acquisition and no call to a locking function while the guard is held: `decide`), and for any number of threads running any sequences of well-nested calls: mutual exclusion, no deadlock (progress), preservation of the invariant, and termination of every schedule (each step consumes an event); with the generator's state in the model (CC.Props.C19Conc; a draw = load / store of the shared state, sections built from the regenerated table): for every schedule the invariant holds, a thread between load and store holds the mutex and sees the current state, the blocks of tokens handed out to all threads are consecutive and never overlap, the final state is the initial one advanced by the sum of all draws (what a serial execution gives), no deadlock, every step consumes an event; the places of the library that construct or duplicate a generator are re-extracted on every run and must all be constructors (generator_sites_are_constructors); witnesses snapshot_breaks / unlocked_breaks show what is lost without the discipline. The Rust memory model, the Mutex implementation, poisoning and OS scheduling are outside the model: a 2..16-thread stress run on one shared instance with result checks and a watchdog is support for that part",
+    "level_text": "PARTIAL. The lock-acquisition structure of every public function of api.rs and of EncryptedHeader::{generate,decrypt} is re-extracted from the source on every run; Lean theorems: the table is well nested (no acquisition and no call to a locking function while the guard is held: `decide`), and for any number of threads running any sequences of well-nested calls: mutual exclusion, no deadlock (progress), preservation of the invariant, and termination of every schedule (each step consumes an event); with the generator's state in the model (CC.Props.C19Conc; a draw = load / store of the shared state, sections built from the regenerated table): for every schedule the invariant holds, a thread between load and store holds the mutex and sees the current state, the blocks of tokens handed out to all threads are consecutive and never overlap, the final state is the initial one advanced by the sum of all draws (what a serial execution gives), no deadlock, every step consumes an event; the places of the library that construct or duplicate a generator are re-extracted on every run and must all be constructors (generator_sites_are_constructors); witnesses snapshot_breaks / unlocked_breaks show what is lost without the discipline. The Rust memory model, the Mutex implementation, poisoning and OS scheduling are outside the model: a 2..16-thread stress run on one shared instance with result checks and a watchdog is support for that part; the only shared-state / synchronisation object the library declares (fields, statics, thread-locals, atomics, cells; table `syncObjects` regenerated from the source) is the generator's mutex — the one mutex of the scheduling model (generator_mutex_is_the_only_shared_state); the stress run varies the arguments of PkeAc::encrypt at every call while other threads use the other entry points, and reports a stall (no iteration completed by any thread for 60 s) as a blocked call",
     "level_note": "std::sync::Mutex idealised (mutual exclusion; guard released at end of scope: temporaries at the end of the statement, `let` guards at the end of the block); tools/gen_tables.py (a small tokenizer, fail-closed) trusted",
 }
 
